@@ -278,6 +278,8 @@ func (e *Engine) VerifyFunc(c *Contract) {
 		}
 		c = &cp
 	}
+	e.noInv = c.NoInv
+	defer func() { e.noInv = nil }()
 	fc := &FnCtx{e: e, pkg: pkg, info: pkg.TypesInfo, decl: tgt.decl, body: tgt.body, c: c, name: name,
 		counters: map[string]int{}, modified: map[types.Object]bool{}}
 	fc.sig = tgt.sig
